@@ -300,6 +300,7 @@ const K: &str = "K.class";
 
 pub fn exec(v: &Value) -> Result<Value> {
 	match v["op"].as_str().context("op")? {
+		"store" => super::jarstore::exec(v),          // the jar storage layer below merge (spec/jar/JarStore.tla)
 		"jars" => run_merge(v),
 		"lists" => {
 			let level = v["level"].as_str().context("level")?;
